@@ -1,0 +1,70 @@
+//go:build verif
+
+// Machine-checked contracts for package isobmff (comment-only; read by /verif/bin/vcgo).
+package isobmff
+
+//@ pool readerPool *bufio.Reader
+
+// ---- the box chain ----
+// A box limits what may be read through it; boxes nest through `outer`. The chain is at most 4 deep on every path of the
+// library (ReadMetadata -> meta/moov -> uuid/iprp -> CMTn/ipma/PRVW); that bound is a PRECONDITION proved at every call
+// site, so the chain predicates below can be written unrolled and stay quantifier-free.
+//@ spec rdOK(b) = b.reader != nil && b.reader.br != nil && b.remain >= 0
+//@ spec wf0(b) = rdOK(b) && b.outer == nil
+//@ spec wf1(b) = rdOK(b) && (b.outer != nil ==> wf0(b.outer) && b.outer.reader == b.reader)
+//@ spec wf2(b) = rdOK(b) && (b.outer != nil ==> wf1(b.outer) && b.outer.reader == b.reader)
+//@ spec wf3(b) = rdOK(b) && (b.outer != nil ==> wf2(b.outer) && b.outer.reader == b.reader)
+//@ spec wf4(b) = rdOK(b) && (b.outer != nil ==> wf3(b.outer) && b.outer.reader == b.reader)
+// chain length (for the termination of the recursive Peek/Discard/adjust)
+//@ spec clen1(b) = ite(b.outer == nil, 0, 1)
+//@ spec clen2(b) = ite(b.outer == nil, 0, 1 + clen1(b.outer))
+//@ spec clen3(b) = ite(b.outer == nil, 0, 1 + clen2(b.outer))
+//@ spec clen4(b) = ite(b.outer == nil, 0, 1 + clen3(b.outer))
+
+//@ func (*Reader).peek
+//@   props C01 C02 C11
+//@   requires r.br != nil
+//@   modifies stream(r.br)
+//@   view r0
+//@   ensures pos(r.br) == old(pos(r.br))
+//@   ensures r1 == nil ==> len(r0) == n && n >= 0 && pos(r.br) + n <= lim(r.br)
+//@   ensures r1 != nil ==> len(r0) < n || n < 0
+//@   ensures arr(r0) == sid(r.br) && off(r0) == pos(r.br) && cap(r0) >= len(r0) && len(r0) >= 0
+
+//@ func (*Reader).discard
+//@   props C01 C02 C11
+//@   requires r.br != nil
+//@   modifies stream(r.br), r.offset
+//@   ensures n >= 0 ==> 0 <= r0 && r0 <= n && pos(r.br) == old(pos(r.br)) + r0
+//@   ensures n < 0 ==> r0 == 0 && r1 != nil && pos(r.br) == old(pos(r.br))
+//@   ensures r1 == nil ==> r0 == n
+
+//@ func (*box).Peek
+//@   props C01 C02 C11
+//@   requires wf4(b)
+//@   modifies stream(b.reader.br)
+//@   view r0
+//@   decreases clen4(b)
+//@   ensures pos(b.reader.br) == old(pos(b.reader.br))
+//@   ensures [C11] r1 == nil ==> len(r0) == n && n >= 0 && n <= b.remain
+//@   ensures r1 != nil ==> len(r0) < n || n < 0 || len(r0) == 0
+//@   ensures arr(r0) == sid(b.reader.br) && off(r0) == pos(b.reader.br) && cap(r0) >= len(r0) && len(r0) >= 0
+
+//@ func (*box).Discard
+//@   props C01 C02 C11
+//@   requires wf4(b) && n >= 0
+//@   modifies stream(b.reader.br), box.remain, Reader.offset
+//@   decreases clen4(b)
+//@   ensures 0 <= r0 && r0 <= n && pos(b.reader.br) == old(pos(b.reader.br)) + r0
+//@   ensures r1 == nil ==> r0 == n
+//@   ensures [C11] r0 > 0 ==> old(b.remain) >= n
+//@   ensures [C11] b.remain == ite(old(b.remain) >= n, old(b.remain) - n, old(b.remain))
+//@   ensures wf4(b)
+
+//@ func (*box).close
+//@   props C01 C02 C11
+//@   requires wf4(b)
+//@   modifies stream(b.reader.br), box.remain, Reader.offset
+//@   ensures [C11] r0 == nil ==> b.remain == 0 && pos(b.reader.br) == old(pos(b.reader.br)) + old(b.remain)
+//@   ensures pos(b.reader.br) >= old(pos(b.reader.br))
+//@   ensures wf4(b)
